@@ -29,7 +29,8 @@ Proof.
 Qed.
 
 Definition set_rec (r : rt) : rt :=
-  mk_rt (r_id r) (r_parent r) (r_kind r) (r_what r) (r_loc r) (r_start r) (r_tags r) (r_miles r) true.
+  mk_rt (r_id r) (r_parent r) (r_kind r) (r_what r) (r_loc r) (r_start r) (r_tags r) (r_miles r)
+        (r_started r || r_rec r) (r_started r).
 
 Lemma tget_mark_all k m : tget k (mark_all m) = option_map set_rec (tget k m).
 Proof.
@@ -45,33 +46,33 @@ Proof.
   - intro H. exists x. split; [exact H|apply N.eqb_refl].
 Qed.
 
-Lemma started_ids_cons o h :
-  started_ids (o :: h) = match o with OStart i _ _ _ _ _ => i :: started_ids h | _ => started_ids h end.
-Proof. destruct o; reflexivity. Qed.
-
-Lemma ended_ids_cons o h :
-  ended_ids (o :: h) = match o with OEnd i _ => i :: ended_ids h | _ => ended_ids h end.
-Proof. destruct o; reflexivity. Qed.
+Definition tag_of (id : N) (o : op) : bool := match o with OTag _ task _ _ => task =? id | _ => false end.
+Definition mile_of (id : N) (o : op) : bool := match o with OMile _ task _ _ _ => task =? id | _ => false end.
 
 Lemma live_cons_other id o h : starts_of id o = false -> ends_of id o = false ->
   live id (o :: h) = live id h.
 Proof.
-  intros Hs He. unfold live. rewrite started_ids_cons, ended_ids_cons.
-  destruct o as [i ? ? ? ? ?|i ?| | | | |]; try reflexivity.
-  - cbn [starts_of] in Hs. cbn [existsb]. rewrite (N.eqb_sym id i), Hs. reflexivity.
-  - cbn [ends_of] in He. cbn [existsb]. rewrite (N.eqb_sym id i), He. reflexivity.
+  intros Hs He. destruct o; cbn [live starts_of ends_of] in *; try reflexivity.
+  - rewrite Hs. reflexivity.
+  - rewrite He. reflexivity.
 Qed.
 
-Lemma live_after_end id t h : live id (OEnd id t :: h) = false.
+Lemma pend_tags_cons_other id o h : starts_of id o = false -> ends_of id o = false -> tag_of id o = false ->
+  pend_tags id (o :: h) = pend_tags id h.
 Proof.
-  unfold live. rewrite ended_ids_cons. cbn [existsb]. rewrite N.eqb_refl. cbn. apply andb_false_r.
+  intros Hs He Ht. destruct o; cbn [pend_tags starts_of ends_of tag_of] in *; try reflexivity.
+  - rewrite Hs. reflexivity.
+  - rewrite He. reflexivity.
+  - rewrite Ht. reflexivity.
 Qed.
 
-Lemma live_after_start id p k w l t h : existsb (N.eqb id) (ended_ids h) = false ->
-  live id (OStart id p k w l t :: h) = true.
+Lemma pend_miles_cons_other id o h : starts_of id o = false -> ends_of id o = false -> mile_of id o = false ->
+  pend_miles id (o :: h) = pend_miles id h.
 Proof.
-  intro H. unfold live. rewrite started_ids_cons, ended_ids_cons. cbn [existsb].
-  rewrite N.eqb_refl, H. reflexivity.
+  intros Hs He Ht. destruct o; cbn [pend_miles starts_of ends_of mile_of] in *; try reflexivity.
+  - rewrite Hs. reflexivity.
+  - rewrite He. reflexivity.
+  - rewrite Ht. reflexivity.
 Qed.
 
 Lemma split_start_acc id h : forall acc,
@@ -100,6 +101,11 @@ Lemma tags_of_app id a b : tags_of id (a ++ b) = tags_of id a ++ tags_of id b.
 Proof. unfold tags_of. apply flat_map_app. Qed.
 Lemma miles_of_app id a b : miles_of id (a ++ b) = miles_of id a ++ miles_of id b.
 Proof. unfold miles_of. apply flat_map_app. Qed.
+
+Lemma tags_of_single id o : tag_of id o = false -> tags_of id [o] = [].
+Proof. destruct o; cbn [tag_of tags_of flat_map app]; try reflexivity. intros ->. reflexivity. Qed.
+Lemma miles_of_single id o : mile_of id o = false -> miles_of id [o] = [].
+Proof. destruct o; cbn [mile_of miles_of flat_map app]; try reflexivity. intros ->. reflexivity. Qed.
 
 Lemma existsb_app_single {A} (f : A -> bool) l x : existsb f (l ++ [x]) = existsb f l || f x.
 Proof. rewrite existsb_app. cbn [existsb]. rewrite orb_false_r. reflexivity. Qed.
@@ -138,17 +144,23 @@ Proof.
     + rewrite (N.eqb_sym t (mile_time x)), E2. reflexivity.
 Qed.
 
+(** what AddMilestone does to the deduplicated list = one more raw milestone *)
+Lemma fpi_add l mid task t kind what :
+  (if existsb (fun x => mile_time x =? t) (first_per_instant [] l) then first_per_instant [] l
+   else first_per_instant [] l ++ [mile_row mid task t kind what]) =
+  first_per_instant [] (l ++ [mile_row mid task t kind what]).
+Proof.
+  rewrite fpi_snoc, fpi_times. cbn [existsb negb orb]. rewrite andb_true_r.
+  change (mile_time (mile_row mid task t kind what)) with t.
+  destruct (existsb (fun x => mile_time x =? t) l); [rewrite app_nil_r|]; reflexivity.
+Qed.
+
 (** ---------------------------------------------------------------- wf_h facts *)
 Lemma wf_h_cons o r : wf_h (o :: r) = true ->
   wf_h r = true /\
   (match r with [] => True | p :: _ => is_terminate p = false end) /\
   (match o with
-   | OStart id _ kind what loc _ =>
-       valid_start id kind what loc = true /\
-       existsb (N.eqb id) (started_ids r) = false /\ existsb (N.eqb id) (ended_ids r) = false
-   | OEnd id _ => live id r = true
-   | OTag _ task _ _ => live task r = true
-   | OMile _ task _ _ _ => live task r = true
+   | OStart id _ kind what loc _ => valid_start id kind what loc = true /\ live id r = false
    | _ => True
    end).
 Proof.
@@ -158,10 +170,8 @@ Proof.
   - destruct r; [exact I|]. apply andb_true_iff in H2. destruct H2 as [_ H2].
     destruct (is_terminate o0); [discriminate|reflexivity].
   - destruct o; auto.
-    apply andb_true_iff in H3. destruct H3 as [H3 Hc]. apply andb_true_iff in H3. destruct H3 as [Ha Hb].
-    repeat split; auto.
-    + destruct (existsb (N.eqb id) (started_ids r)); [discriminate|reflexivity].
-    + destruct (existsb (N.eqb id) (ended_ids r)); [discriminate|reflexivity].
+    apply andb_true_iff in H3. destruct H3 as [Ha Hb]. split; [exact Ha|].
+    destruct (live id r); [discriminate|reflexivity].
 Qed.
 
 Lemma wf_h_app a b : wf_h (a ++ b) = true -> wf_h b = true.
@@ -182,25 +192,32 @@ Proof. destruct o; reflexivity. Qed.
 Definition rt_spec (id : N) (h : list op) (r : rt) : Prop :=
   exists between parent kind what loc t older,
     split_start id h [] = Some (between, OStart id parent kind what loc t, older) /\
-    r = mk_rt id parent kind what loc t (tags_of id between)
-              (first_per_instant [] (miles_of id between))
-              (on_after_h older || existsb is_start_tracing between).
+    r = mk_rt id parent kind what loc t (pend_tags id older ++ tags_of id between)
+              (first_per_instant [] (pend_miles id older ++ miles_of id between))
+              (on_after_h older || existsb is_start_tracing between) true.
+
+Definition placeholder (id : N) (h : list op) : rt :=
+  mk_rt id 0 0 0 0 0 (pend_tags id h) (first_per_instant [] (pend_miles id h)) false false.
+
+(** what the table holds for an ID after the history [h] *)
+Definition entry_ok (id : N) (h : list op) (e : option rt) : Prop :=
+  match e with
+  | Some r => if r_started r then live id h = true /\ rt_spec id h r
+              else live id h = false /\ r = placeholder id h
+  | None => live id h = false /\ pend_tags id h = [] /\ pend_miles id h = []
+  end.
 
 Record inv (h : list op) (s : st) : Prop := mk_inv {
   i_term : s_term s = false;
   i_tracing : s_tracing s = on_after_h h;
-  i_tasks : exists m, s_tasks s = Some m /\
-            forall id, match tget id m with
-                       | Some r => live id h = true /\ rt_spec id h r
-                       | None => live id h = false
-                       end;
+  i_tasks : exists m, s_tasks s = Some m /\ forall id, entry_ok id h (tget id m);
   i_marked : s_tracing s = true ->
-             forall m id r, s_tasks s = Some m -> tget id m = Some r -> r_rec r = true }.
+             forall m id r, s_tasks s = Some m -> tget id m = Some r -> r_started r = true -> r_rec r = true }.
 
 Lemma inv0 : inv [] st0.
 Proof.
   constructor; try reflexivity.
-  - exists []. split; [reflexivity|]. intro id. reflexivity.
+  - exists []. split; [reflexivity|]. intro id. cbn. auto.
   - cbn. discriminate.
 Qed.
 
@@ -208,6 +225,26 @@ Qed.
 Lemma inv_tabs h tk tr ws tm p d p' d' :
   inv h (mk_st tk tr ws tm p d) -> inv h (mk_st tk tr ws tm p' d').
 Proof. intros [A B C D]. constructor; assumption. Qed.
+
+(** a call that does not concern an ID leaves its entry right *)
+Lemma entry_other id h e o :
+  starts_of id o = false -> ends_of id o = false -> tag_of id o = false -> mile_of id o = false ->
+  is_start_tracing o = false ->
+  entry_ok id h e -> entry_ok id (o :: h) e.
+Proof.
+  intros Hs He Ht Hm Hst Hok. unfold entry_ok in *.
+  rewrite (live_cons_other id o h Hs He).
+  destruct e as [r|].
+  - destruct (r_started r).
+    + destruct Hok as [Hl [b [p [k [w [l [t [older [Hsp Hr]]]]]]]]]. split; [exact Hl|].
+      exists (b ++ [o]), p, k, w, l, t, older. split.
+      * rewrite (split_start_cons_other id o h Hs), Hsp. reflexivity.
+      * rewrite tags_of_app, miles_of_app, existsb_app_single, (tags_of_single id o Ht), (miles_of_single id o Hm), Hst.
+        rewrite !app_nil_r, orb_false_r. exact Hr.
+    + destruct Hok as [Hl Hr]. split; [exact Hl|]. unfold placeholder in *.
+      rewrite (pend_tags_cons_other id o h Hs He Ht), (pend_miles_cons_other id o h Hs He Hm). exact Hr.
+  - rewrite (pend_tags_cons_other id o h Hs He Ht), (pend_miles_cons_other id o h Hs He Hm). exact Hok.
+Qed.
 
 (** all rows handed to the recorder so far, per table *)
 Definition all_trace (s : st) : list row := t_trace (s_db s) ++ t_trace (s_pend s).
@@ -221,14 +258,17 @@ Definition open_of (s : st) : option N := if s_tracing s then Some (s_wstart s) 
 Definition rows_of (h : list op) (o : op) : list row * list row * list row :=
   match o with
   | OEnd id e =>
-      match split_start id h [] with
-      | Some (between, OStart _ parent kind what loc s, older) =>
-          if on_after_h older || existsb is_start_tracing between
-          then ([trace_row id parent kind what loc s e],
-                first_per_instant [] (miles_of id between), tags_of id between)
-          else ([], [], [])
-      | _ => ([], [], [])
-      end
+      if live id h then
+        match split_start id h [] with
+        | Some (between, OStart _ parent kind what loc s, older) =>
+            if on_after_h older || existsb is_start_tracing between
+            then ([trace_row id parent kind what loc s e],
+                  first_per_instant [] (pend_miles id older ++ miles_of id between),
+                  pend_tags id older ++ tags_of id between)
+            else ([], [], [])
+        | _ => ([], [], [])
+        end
+      else ([], [], [])
   | _ => ([], [], [])
   end.
 
@@ -252,7 +292,7 @@ Lemma spec_rows_cons h o r :
   let '(tr0, mi0, tg0) := rows_of h o in (tr0 ++ tr, mi0 ++ mi, tg0 ++ tg).
 Proof.
   cbn [spec_rows]. destruct (spec_rows (o :: h) r) as [[tr mi] tg].
-  destruct o; try reflexivity. cbn [rows_of].
+  destruct o; try reflexivity. cbn [rows_of]. destruct (live id h); [|reflexivity].
   destruct (split_start id h []) as [[[b s] older]|]; [|reflexivity].
   destruct s; try reflexivity.
   destruct (on_after_h older || existsb is_start_tracing b); reflexivity.
@@ -260,6 +300,9 @@ Qed.
 
 Lemma windows_cons o r open : windows (o :: r) open = seg_of open o ++ windows r (open_after open o).
 Proof. destruct o; destruct open; reflexivity. Qed.
+
+Ltac other_entry Htasks id0 :=
+  apply entry_other; try reflexivity; try (cbn; apply N.eqb_neq; congruence); apply (Htasks id0).
 
 (** one step: the invariant is kept, no panic, and exactly the specified rows are added *)
 Lemma step_ok h s o : inv h s -> wf_h (o :: h) = true ->
@@ -275,140 +318,158 @@ Lemma step_ok h s o : inv h s -> wf_h (o :: h) = true ->
 Proof.
   intros [Hterm Htr [m [Hm Htasks]] Hmarked] Hwf. cbn zeta.
   apply wf_h_cons in Hwf. destruct Hwf as [Hwfh [_ Hop]].
-  assert (forall id0 r0, starts_of id0 o = false -> rt_spec id0 h r0 ->
-            exists between parent kind what loc t older,
-              split_start id0 (o :: h) [] = Some (between ++ [o], OStart id0 parent kind what loc t, older) /\
-              split_start id0 h [] = Some (between, OStart id0 parent kind what loc t, older) /\
-              r0 = mk_rt id0 parent kind what loc t (tags_of id0 between)
-                         (first_per_instant [] (miles_of id0 between))
-                         (on_after_h older || existsb is_start_tracing between)) as Hext.
-  { intros id0 r0 Hs [b [p [k [w [l [t [older [Hsp Hr]]]]]]]].
-    exists b, p, k, w, l, t, older. rewrite (split_start_cons_other id0 o h Hs), Hsp. auto. }
   destruct o as [id parent kind what loc t|id t|tid task what t|mid task t kind what|now|now|now].
   - (* ---------------- StartTask *)
-    destruct Hop as [Hvalid [Hns Hne]].
-    assert (live id h = false) as Hnl by (unfold live; rewrite Hns; reflexivity).
-    assert (tget id m = None) as Hnone.
-    { specialize (Htasks id). destruct (tget id m); [destruct Htasks; congruence|reflexivity]. }
-    cbn [step]. rewrite Hvalid, Hm, Hnone. unfold with_tasks. cbn [negb fst snd].
+    destruct Hop as [Hvalid Hnl].
+    pose proof (Htasks id) as Hid. unfold entry_ok in Hid.
+    assert (exists old, (match tget id m with Some r => r | None => rt_new id end) = old /\
+              r_tags old = pend_tags id h /\ r_miles old = first_per_instant [] (pend_miles id h) /\
+              r_rec old = false) as [old [Hold [Ht [Hmi Hrec]]]].
+    { destruct (tget id m) as [r|].
+      - destruct (r_started r); [destruct Hid; congruence|]. destruct Hid as [_ ->].
+        eexists. split; [reflexivity|]. cbn. auto.
+      - destruct Hid as [_ [-> ->]]. eexists. split; [reflexivity|]. cbn. auto. }
+    cbn [step]. rewrite Hvalid, Hm, Hold. unfold with_tasks. cbn [negb fst snd].
     unfold all_trace, all_mile, all_tag, all_seg, open_of.
     cbn [s_db s_pend s_tracing s_wstart rows_of seg_of open_after is_terminate fst snd].
     rewrite !app_nil_r. split; [reflexivity|].
     split; [|repeat split; auto; try discriminate; destruct (s_tracing s); reflexivity].
     intros _. constructor; cbn [s_term s_tracing s_tasks]; [exact Hterm|exact Htr| |].
-
     + eexists. split; [reflexivity|]. intro id0.
       destruct (N.eq_dec id0 id) as [->|Hd].
-      * rewrite tget_tset_same. split; [apply live_after_start; exact Hne|].
+      * rewrite tget_tset_same. unfold entry_ok. cbn [r_started live]. rewrite N.eqb_refl.
+        split; [reflexivity|].
         exists [], parent, kind, what, loc, t, h. split.
         -- cbn [split_start starts_of]. rewrite N.eqb_refl. reflexivity.
-        -- cbn [rt_new r_tags r_miles r_rec tags_of miles_of flat_map first_per_instant existsb].
-           rewrite orb_false_r, <- Htr. destruct (s_tracing s); reflexivity.
-      * rewrite tget_tset_other by exact Hd.
-        assert (starts_of id0 (OStart id parent kind what loc t) = false) as Hs
-          by (cbn; apply N.eqb_neq; congruence).
-        rewrite live_cons_other by (auto; reflexivity).
-        specialize (Htasks id0). destruct (tget id0 m) as [r0|]; [|exact Htasks].
-        destruct Htasks as [Hl Hspec]. split; [exact Hl|].
-        destruct (Hext id0 r0 Hs Hspec) as [b [p [k [w [l [t0 [older [H1 [_ H2]]]]]]]]].
-        exists (b ++ [OStart id parent kind what loc t]), p, k, w, l, t0, older. split; [exact H1|].
-        rewrite tags_of_app, miles_of_app, existsb_app_single. cbn [tags_of miles_of flat_map is_start_tracing].
-        rewrite !app_nil_r, orb_false_r. exact H2.
-    + intros Hon m' id0 r0 Hm' Hg. injection Hm' as <-.
+        -- cbn [tags_of miles_of flat_map existsb]. rewrite !app_nil_r, orb_false_r, Ht, Hmi, Hrec, <- Htr.
+           destruct (s_tracing s); reflexivity.
+      * rewrite tget_tset_other by exact Hd. other_entry Htasks id0.
+    + intros Hon m' id0 r0 Hm' Hg Hst. injection Hm' as <-.
       destruct (N.eq_dec id0 id) as [->|Hd].
       * rewrite tget_tset_same in Hg. injection Hg as <-. cbn [r_rec]. rewrite Hon. reflexivity.
       * rewrite tget_tset_other in Hg by exact Hd. eapply Hmarked; eauto.
   - (* ---------------- EndTask *)
     cbn [step]. unfold with_tasks, with_pend. rewrite Hm.
-    pose proof (Htasks id) as Hid. destruct (tget id m) as [r0|] eqn:Hg; [|congruence].
-    destruct Hid as [_ [b [p [k [w [l [t0 [older [Hsp Hr]]]]]]]]].
-    assert (inv (OEnd id t :: h)
-              (mk_st (Some (tdel id m)) (s_tracing s) (s_wstart s) (s_term s) (s_pend s) (s_db s))) as Hinv'.
-    { constructor; cbn [s_term s_tracing s_tasks]; [exact Hterm|exact Htr| |].
+    pose proof (Htasks id) as Hid. unfold entry_ok in Hid.
+    assert (forall m', (forall id0, id0 <> id -> tget id0 m' = tget id0 m) -> tget id m' = None ->
+              inv (OEnd id t :: h) (mk_st (Some m') (s_tracing s) (s_wstart s) (s_term s) (s_pend s) (s_db s))) as Hinv'.
+    { intros m' Hsame Hnone. constructor; cbn [s_term s_tracing s_tasks]; [exact Hterm|exact Htr| |].
       - eexists. split; [reflexivity|]. intro id0.
-        destruct (N.eq_dec id0 id) as [->|Hd]; [rewrite tget_tdel_same; apply live_after_end|].
-        rewrite tget_tdel_other by exact Hd.
-        assert (ends_of id0 (OEnd id t) = false) as He by (cbn; apply N.eqb_neq; congruence).
-        rewrite live_cons_other by (auto; reflexivity).
-        specialize (Htasks id0). destruct (tget id0 m) as [r1|]; [|exact Htasks].
-        destruct Htasks as [Hl Hspec]. split; [exact Hl|].
-        destruct (Hext id0 r1 eq_refl Hspec) as [b1 [p1 [k1 [w1 [l1 [t1 [older1 [H1 [_ H2]]]]]]]]].
-        exists (b1 ++ [OEnd id t]), p1, k1, w1, l1, t1, older1. split; [exact H1|].
-        rewrite tags_of_app, miles_of_app, existsb_app_single. cbn [tags_of miles_of flat_map is_start_tracing].
-        rewrite !app_nil_r, orb_false_r. exact H2.
-      - intros Hon m' id0 r1 Hm' Hg'. injection Hm' as <-.
-        destruct (N.eq_dec id0 id) as [->|Hd]; [rewrite tget_tdel_same in Hg'; discriminate|].
-        rewrite tget_tdel_other in Hg' by exact Hd. eapply Hmarked; eauto. }
-    cbn [rows_of]. rewrite Hsp. subst r0. cbn [r_rec r_id r_parent r_kind r_what r_loc r_start r_miles r_tags].
-    destruct (on_after_h older || existsb is_start_tracing b);
-      cbn [fst snd with_tasks with_pend]; unfold all_trace, all_mile, all_tag, all_seg, open_of;
-      cbn [s_db s_pend s_tracing s_wstart t_trace t_mile t_tag t_seg seg_of open_after is_terminate fst snd];
-      rewrite ?app_nil_r, ?app_assoc;
-      (split; [reflexivity|]); (split; [intros _; eapply inv_tabs; exact Hinv'|]);
-      repeat split; auto; try discriminate; destruct (s_tracing s); reflexivity.
+        destruct (N.eq_dec id0 id) as [->|Hd].
+        + rewrite Hnone. unfold entry_ok. cbn [live pend_tags pend_miles]. rewrite N.eqb_refl. auto.
+        + rewrite (Hsame id0 Hd). other_entry Htasks id0.
+      - intros Hon m'' id0 r1 Hm' Hg' Hst. injection Hm' as <-.
+        destruct (N.eq_dec id0 id) as [->|Hd]; [congruence|].
+        rewrite (Hsame id0 Hd) in Hg'. eapply Hmarked; eauto. }
+    cbn [rows_of].
+    destruct (tget id m) as [r0|] eqn:Hg.
+    + destruct (r_started r0) eqn:Hst0.
+      * (* a running task ends *)
+        destruct Hid as [Hl [b [p [k [w [l [t0 [older [Hsp Hr]]]]]]]]]. rewrite Hl, Hsp. subst r0.
+        cbn [r_rec r_id r_parent r_kind r_what r_loc r_start r_miles r_tags].
+        specialize (Hinv' (tdel id m) (fun id0 Hd => tget_tdel_other id id0 m Hd) (tget_tdel_same id m)).
+        destruct (on_after_h older || existsb is_start_tracing b);
+          cbn [fst snd]; unfold all_trace, all_mile, all_tag, all_seg, open_of;
+          cbn [s_db s_pend s_tracing s_wstart t_trace t_mile t_tag t_seg seg_of open_after is_terminate fst snd];
+          rewrite ?app_nil_r, ?app_assoc;
+          (split; [reflexivity|]); (split; [intros _; eapply inv_tabs; exact Hinv'|]);
+          repeat split; auto; try discriminate; destruct (s_tracing s); reflexivity.
+      * (* the end of an ID that was only mentioned: the placeholder goes, nothing is written *)
+        destruct Hid as [Hl Hr]. rewrite Hl. subst r0. cbn [placeholder r_rec].
+        specialize (Hinv' (tdel id m) (fun id0 Hd => tget_tdel_other id id0 m Hd) (tget_tdel_same id m)).
+        cbn [fst snd]; unfold all_trace, all_mile, all_tag, all_seg, open_of;
+          cbn [s_db s_pend s_tracing s_wstart t_trace t_mile t_tag t_seg seg_of open_after is_terminate fst snd];
+          rewrite ?app_nil_r;
+          (split; [reflexivity|]); (split; [intros _; exact Hinv'|]);
+          repeat split; auto; try discriminate; destruct (s_tracing s); reflexivity.
+    + (* unknown ID *)
+      destruct Hid as [Hl _]. rewrite Hl.
+      specialize (Hinv' m (fun _ _ => eq_refl) Hg).
+      cbn [fst snd]; unfold all_trace, all_mile, all_tag, all_seg, open_of;
+        cbn [rows_of seg_of open_after is_terminate fst snd]; rewrite ?app_nil_r;
+        (split; [reflexivity|]);
+        (split; [intros _; replace s with (mk_st (Some m) (s_tracing s) (s_wstart s) (s_term s) (s_pend s) (s_db s))
+                   by (destruct s; cbn in *; congruence); exact Hinv'|]);
+        repeat split; auto; try discriminate.
   - (* ---------------- AddTaskTag *)
-    cbn [step]. unfold with_tasks, with_pend. rewrite Hm.
-    pose proof (Htasks task) as Hid. destruct (tget task m) as [r0|] eqn:Hg; [|congruence].
-    destruct Hid as [Hl Hspec].
-    cbn [fst snd with_tasks]. unfold all_trace, all_mile, all_tag, all_seg, open_of.
+    cbn [step]. unfold with_tasks. rewrite Hm.
+    pose proof (Htasks task) as Hid. unfold entry_ok in Hid.
+    cbn [fst snd]. unfold all_trace, all_mile, all_tag, all_seg, open_of.
     cbn [s_db s_pend s_tracing s_wstart rows_of seg_of open_after is_terminate fst snd].
     rewrite !app_nil_r. split; [reflexivity|].
     split; [|repeat split; auto; try discriminate; destruct (s_tracing s); reflexivity].
     intros _. constructor; cbn [s_term s_tracing s_tasks]; [exact Hterm|exact Htr| |].
     + eexists. split; [reflexivity|]. intro id0.
-      rewrite live_cons_other by reflexivity.
+      destruct (N.eq_dec id0 task) as [->|Hd]; [|rewrite tget_tset_other by exact Hd; other_entry Htasks id0].
+      rewrite tget_tset_same. unfold entry_ok.
+      destruct (tget task m) as [r0|].
+      * cbn [r_started]. destruct (r_started r0) eqn:Hst0.
+        -- destruct Hid as [Hl [b [p [k [w [l [t0 [older [Hsp Hr]]]]]]]]].
+           rewrite live_cons_other by reflexivity. split; [exact Hl|].
+           exists (b ++ [OTag tid task what t]), p, k, w, l, t0, older. split.
+           ++ rewrite split_start_cons_other by reflexivity. rewrite Hsp. reflexivity.
+           ++ subst r0. cbn [r_id r_parent r_kind r_what r_loc r_start r_tags r_miles r_rec].
+              rewrite tags_of_app, miles_of_app, existsb_app_single.
+              cbn [tags_of miles_of flat_map is_start_tracing]. rewrite N.eqb_refl, !app_nil_r, orb_false_r, app_assoc.
+              reflexivity.
+        -- destruct Hid as [Hl Hr]. rewrite live_cons_other by reflexivity. split; [exact Hl|].
+           subst r0. unfold placeholder. cbn [r_id r_parent r_kind r_what r_loc r_start r_tags r_miles r_rec pend_tags pend_miles].
+           rewrite N.eqb_refl. reflexivity.
+      * destruct Hid as [Hl [Hpt Hpm]]. cbn [rt_new r_started]. rewrite live_cons_other by reflexivity.
+        split; [exact Hl|]. unfold placeholder. cbn [r_id r_parent r_kind r_what r_loc r_start r_tags r_miles r_rec pend_tags pend_miles].
+        rewrite N.eqb_refl, Hpt, Hpm. reflexivity.
+    + intros Hon m' id0 r1 Hm' Hg' Hst. injection Hm' as <-.
       destruct (N.eq_dec id0 task) as [->|Hd].
-      * rewrite tget_tset_same. split; [exact Hl|].
-        destruct (Hext task r0 eq_refl Hspec) as [b [p [k [w [l [t0 [older [H1 [_ H2]]]]]]]]].
-        exists (b ++ [OTag tid task what t]), p, k, w, l, t0, older. split; [exact H1|].
-        rewrite tags_of_app, miles_of_app, existsb_app_single. cbn [tags_of miles_of flat_map is_start_tracing].
-        rewrite N.eqb_refl, !app_nil_r, orb_false_r. subst r0. reflexivity.
-      * rewrite tget_tset_other by exact Hd.
-        specialize (Htasks id0). destruct (tget id0 m) as [r1|]; [|exact Htasks].
-        destruct Htasks as [Hl1 Hspec1]. split; [exact Hl1|].
-        destruct (Hext id0 r1 eq_refl Hspec1) as [b [p [k [w [l [t0 [older [H1 [_ H2]]]]]]]]].
-        exists (b ++ [OTag tid task what t]), p, k, w, l, t0, older. split; [exact H1|].
-        rewrite tags_of_app, miles_of_app, existsb_app_single. cbn [tags_of miles_of flat_map is_start_tracing].
-        assert (task =? id0 = false) as -> by (apply N.eqb_neq; congruence).
-        rewrite !app_nil_r, orb_false_r. exact H2.
-    + intros Hon m' id0 r1 Hm' Hg'. injection Hm' as <-.
-      destruct (N.eq_dec id0 task) as [->|Hd].
-      * rewrite tget_tset_same in Hg'. injection Hg' as <-. cbn [r_rec]. eapply Hmarked; eauto.
+      * rewrite tget_tset_same in Hg'. injection Hg' as <-. cbn [r_rec r_started] in *.
+        destruct (tget task m) as [r0|] eqn:Hg; [eapply Hmarked; eauto|cbn in Hst; discriminate].
       * rewrite tget_tset_other in Hg' by exact Hd. eapply Hmarked; eauto.
   - (* ---------------- AddMilestone *)
-    cbn [step]. unfold with_tasks, with_pend. rewrite Hm.
-    pose proof (Htasks task) as Hid. destruct (tget task m) as [r0|] eqn:Hg; [|congruence].
-    destruct Hid as [Hl Hspec].
-    cbn [fst snd with_tasks]. unfold all_trace, all_mile, all_tag, all_seg, open_of.
+    cbn [step]. unfold with_tasks. rewrite Hm.
+    pose proof (Htasks task) as Hid. unfold entry_ok in Hid.
+    cbn [fst snd]. unfold all_trace, all_mile, all_tag, all_seg, open_of.
     cbn [s_db s_pend s_tracing s_wstart rows_of seg_of open_after is_terminate fst snd].
     rewrite !app_nil_r. split; [reflexivity|].
     split; [|repeat split; auto; try discriminate; destruct (s_tracing s); reflexivity].
     intros _. constructor; cbn [s_term s_tracing s_tasks]; [exact Hterm|exact Htr| |].
     + eexists. split; [reflexivity|]. intro id0.
-      rewrite live_cons_other by reflexivity.
+      destruct (N.eq_dec id0 task) as [->|Hd]; [|rewrite tget_tset_other by exact Hd; other_entry Htasks id0].
+      rewrite tget_tset_same. unfold entry_ok.
+      destruct (tget task m) as [r0|].
+      * cbn [r_started]. destruct (r_started r0) eqn:Hst0.
+        -- destruct Hid as [Hl [b [p [k [w [l [t0 [older [Hsp Hr]]]]]]]]].
+           rewrite live_cons_other by reflexivity. split; [exact Hl|].
+           exists (b ++ [OMile mid task t kind what]), p, k, w, l, t0, older. split.
+           ++ rewrite split_start_cons_other by reflexivity. rewrite Hsp. reflexivity.
+           ++ subst r0. cbn [r_id r_parent r_kind r_what r_loc r_start r_tags r_miles r_rec].
+              rewrite tags_of_app, miles_of_app, existsb_app_single.
+              cbn [tags_of miles_of flat_map is_start_tracing]. rewrite N.eqb_refl, !app_nil_r, orb_false_r, app_assoc.
+              rewrite fpi_add. reflexivity.
+        -- destruct Hid as [Hl Hr]. rewrite live_cons_other by reflexivity. split; [exact Hl|].
+           subst r0. unfold placeholder. cbn [r_id r_parent r_kind r_what r_loc r_start r_tags r_miles r_rec pend_tags pend_miles].
+           rewrite N.eqb_refl, fpi_add. reflexivity.
+      * destruct Hid as [Hl [Hpt Hpm]]. cbn [rt_new r_started]. rewrite live_cons_other by reflexivity.
+        split; [exact Hl|]. unfold placeholder. cbn [r_id r_parent r_kind r_what r_loc r_start r_tags r_miles r_rec pend_tags pend_miles].
+        rewrite N.eqb_refl, Hpt, Hpm. reflexivity.
+    + intros Hon m' id0 r1 Hm' Hg' Hst. injection Hm' as <-.
       destruct (N.eq_dec id0 task) as [->|Hd].
-      * rewrite tget_tset_same. split; [exact Hl|].
-        destruct (Hext task r0 eq_refl Hspec) as [b [p [k [w [l [t0 [older [H1 [_ H2]]]]]]]]].
-        exists (b ++ [OMile mid task t kind what]), p, k, w, l, t0, older. split; [exact H1|].
-        rewrite tags_of_app, miles_of_app, existsb_app_single. cbn [tags_of miles_of flat_map is_start_tracing].
-        rewrite N.eqb_refl, !app_nil_r, orb_false_r. subst r0.
-        cbn [r_id r_parent r_kind r_what r_loc r_start r_tags r_miles r_rec]. f_equal.
-        rewrite fpi_snoc, fpi_times. cbn [existsb negb orb]. rewrite andb_true_r.
-        change (mile_time (mile_row mid task t kind what)) with t.
-        destruct (existsb (fun x => mile_time x =? t) (miles_of task b)); [rewrite app_nil_r|]; reflexivity.
-      * rewrite tget_tset_other by exact Hd.
-        specialize (Htasks id0). destruct (tget id0 m) as [r1|]; [|exact Htasks].
-        destruct Htasks as [Hl1 Hspec1]. split; [exact Hl1|].
-        destruct (Hext id0 r1 eq_refl Hspec1) as [b [p [k [w [l [t0 [older [H1 [_ H2]]]]]]]]].
-        exists (b ++ [OMile mid task t kind what]), p, k, w, l, t0, older. split; [exact H1|].
-        rewrite tags_of_app, miles_of_app, existsb_app_single. cbn [tags_of miles_of flat_map is_start_tracing].
-        assert (task =? id0 = false) as -> by (apply N.eqb_neq; congruence).
-        rewrite !app_nil_r, orb_false_r. exact H2.
-    + intros Hon m' id0 r1 Hm' Hg'. injection Hm' as <-.
-      destruct (N.eq_dec id0 task) as [->|Hd].
-      * rewrite tget_tset_same in Hg'. injection Hg' as <-. cbn [r_rec]. eapply Hmarked; eauto.
+      * rewrite tget_tset_same in Hg'. injection Hg' as <-. cbn [r_rec r_started] in *.
+        destruct (tget task m) as [r0|] eqn:Hg; [eapply Hmarked; eauto|cbn in Hst; discriminate].
       * rewrite tget_tset_other in Hg' by exact Hd. eapply Hmarked; eauto.
   - (* ---------------- StartTracing *)
+    assert (forall id0 e, entry_ok id0 h e ->
+              (forall r, e = Some r -> r_started r = true -> r_rec (set_rec r) = true) ->
+              entry_ok id0 (OStartTracing now :: h) (option_map set_rec e)) as Hmark.
+    { intros id0 e Hok _. unfold entry_ok in *. rewrite live_cons_other by reflexivity.
+      destruct e as [r1|]; cbn [option_map].
+      - cbn [set_rec r_started]. destruct (r_started r1) eqn:Hst1.
+        + destruct Hok as [Hl [b [p [k [w [l [t0 [older [Hsp Hr]]]]]]]]]. split; [exact Hl|].
+          exists (b ++ [OStartTracing now]), p, k, w, l, t0, older. split.
+          * rewrite split_start_cons_other by reflexivity. rewrite Hsp. reflexivity.
+          * subst r1. unfold set_rec. cbn [r_id r_parent r_kind r_what r_loc r_start r_tags r_miles r_rec r_started].
+            rewrite tags_of_app, miles_of_app, existsb_app_single.
+            cbn [tags_of miles_of flat_map is_start_tracing orb]. rewrite !app_nil_r, !orb_true_r. reflexivity.
+        + destruct Hok as [Hl Hr]. split; [exact Hl|]. subst r1. reflexivity.
+      - rewrite pend_tags_cons_other, pend_miles_cons_other by reflexivity. exact Hok. }
     cbn [step]. destruct (s_tracing s) eqn:Hon.
     + (* already on: nothing changes; every running task is already marked *)
       cbn [fst snd]. unfold all_trace, all_mile, all_tag, all_seg, open_of. rewrite Hon.
@@ -417,29 +478,26 @@ Proof.
       intros _. constructor.
       * exact Hterm.
       * rewrite Hon. reflexivity.
-      * exists m. split; [exact Hm|]. intro id0. rewrite live_cons_other by reflexivity.
-        specialize (Htasks id0). destruct (tget id0 m) as [r1|] eqn:Hg; [|exact Htasks].
-        destruct Htasks as [Hl1 Hspec1]. split; [exact Hl1|].
-        destruct (Hext id0 r1 eq_refl Hspec1) as [b [p [k [w [l [t0 [older [H1 [_ H2]]]]]]]]].
-        exists (b ++ [OStartTracing now]), p, k, w, l, t0, older. split; [exact H1|].
-        rewrite tags_of_app, miles_of_app, existsb_app_single. cbn [tags_of miles_of flat_map is_start_tracing].
-        rewrite !app_nil_r, orb_true_r, orb_true_r.
-        pose proof (Hmarked eq_refl m id0 r1 Hm Hg) as Hrec. rewrite H2 in Hrec |- *. cbn [r_rec] in Hrec.
-        rewrite Hrec. reflexivity.
-      * intros _ m' id0 r1 Hm' Hg'. eapply Hmarked; eauto.
+      * exists m. split; [exact Hm|]. intro id0.
+        specialize (Hmark id0 (tget id0 m) (Htasks id0)).
+        destruct (tget id0 m) as [r1|] eqn:Hg; cbn [option_map] in Hmark.
+        -- assert (set_rec r1 = r1) as <-;
+             [|apply Hmark; intros r _ Hs; unfold set_rec; cbn [r_rec]; rewrite Hs; reflexivity].
+           unfold set_rec. destruct (r_started r1) eqn:Hst1; cbn [orb].
+           ++ pose proof (Hmarked eq_refl m id0 r1 Hm Hg Hst1) as Hrec.
+              clear - Hrec Hst1. destruct r1; cbn in *; subst; reflexivity.
+           ++ clear - Hst1. destruct r1; cbn in *; subst; reflexivity.
+        -- apply Hmark. intros; discriminate.
+      * intros _ m' id0 r1 Hm' Hg' Hst. eapply Hmarked; eauto.
     + cbn [fst snd]. unfold all_trace, all_mile, all_tag, all_seg, open_of. rewrite Hon.
       cbn [s_db s_pend s_tracing s_wstart rows_of seg_of open_after is_terminate fst snd]. rewrite !app_nil_r.
       split; [reflexivity|]. split; [|repeat split; auto; discriminate].
       intros _. constructor; cbn [s_term s_tracing s_tasks]; [exact Hterm|reflexivity| |].
-      * rewrite Hm. eexists. split; [reflexivity|]. intro id0. rewrite live_cons_other by reflexivity.
-        rewrite tget_mark_all. specialize (Htasks id0). destruct (tget id0 m) as [r1|] eqn:Hg; [|exact Htasks].
-        destruct Htasks as [Hl1 Hspec1]. split; [exact Hl1|]. cbn [option_map].
-        destruct (Hext id0 r1 eq_refl Hspec1) as [b [p [k [w [l [t0 [older [H1 [_ H2]]]]]]]]].
-        exists (b ++ [OStartTracing now]), p, k, w, l, t0, older. split; [exact H1|].
-        rewrite tags_of_app, miles_of_app, existsb_app_single. cbn [tags_of miles_of flat_map is_start_tracing].
-        rewrite !app_nil_r, orb_true_r, orb_true_r. subst r1. reflexivity.
-      * intros _ m' id0 r1 Hm' Hg'. rewrite Hm in Hm'. injection Hm' as <-.
-        rewrite tget_mark_all in Hg'. destruct (tget id0 m); [|discriminate]. injection Hg' as <-. reflexivity.
+      * rewrite Hm. eexists. split; [reflexivity|]. intro id0. rewrite tget_mark_all.
+        apply Hmark; [apply Htasks|]. intros r _ Hst. unfold set_rec. cbn [r_rec]. rewrite Hst. reflexivity.
+      * intros _ m' id0 r1 Hm' Hg' Hst. rewrite Hm in Hm'. injection Hm' as <-.
+        rewrite tget_mark_all in Hg'. destruct (tget id0 m) as [r2|]; [|discriminate].
+        injection Hg' as <-. cbn [set_rec r_rec r_started] in *. rewrite Hst. reflexivity.
   - (* ---------------- StopTracing *)
     cbn [step]. destruct (s_tracing s) eqn:Hon.
     + cbn [fst snd]. unfold stop_body, flush, all_trace, all_mile, all_tag, all_seg, open_of. rewrite Hon.
@@ -447,26 +505,14 @@ Proof.
            is_terminate fst snd].
       rewrite !app_nil_r, ?app_assoc. split; [reflexivity|]. split; [|repeat split; auto; discriminate].
       intros _. constructor; cbn [s_term s_tracing s_tasks]; [exact Hterm|reflexivity| |discriminate].
-      exists m. split; [exact Hm|]. intro id0. rewrite live_cons_other by reflexivity.
-      specialize (Htasks id0). destruct (tget id0 m) as [r1|] eqn:Hg; [|exact Htasks].
-      destruct Htasks as [Hl1 Hspec1]. split; [exact Hl1|].
-      destruct (Hext id0 r1 eq_refl Hspec1) as [b [p [k [w [l [t0 [older [H1 [_ H2]]]]]]]]].
-      exists (b ++ [OStopTracing now]), p, k, w, l, t0, older. split; [exact H1|].
-      rewrite tags_of_app, miles_of_app, existsb_app_single. cbn [tags_of miles_of flat_map is_start_tracing].
-      rewrite !app_nil_r, orb_false_r. exact H2.
+      exists m. split; [exact Hm|]. intro id0. other_entry Htasks id0.
     + cbn [fst snd]. unfold all_trace, all_mile, all_tag, all_seg, open_of. rewrite Hon.
       cbn [rows_of seg_of open_after is_terminate fst snd]. rewrite !app_nil_r.
       split; [reflexivity|]. split; [|repeat split; auto; discriminate].
       intros _. constructor.
       * exact Hterm.
       * rewrite Hon. reflexivity.
-      * exists m. split; [exact Hm|]. intro id0. rewrite live_cons_other by reflexivity.
-        specialize (Htasks id0). destruct (tget id0 m) as [r1|] eqn:Hg; [|exact Htasks].
-        destruct Htasks as [Hl1 Hspec1]. split; [exact Hl1|].
-        destruct (Hext id0 r1 eq_refl Hspec1) as [b [p [k [w [l [t0 [older [H1 [_ H2]]]]]]]]].
-        exists (b ++ [OStopTracing now]), p, k, w, l, t0, older. split; [exact H1|].
-        rewrite tags_of_app, miles_of_app, existsb_app_single. cbn [tags_of miles_of flat_map is_start_tracing].
-        rewrite !app_nil_r, orb_false_r. exact H2.
+      * exists m. split; [exact Hm|]. intro id0. other_entry Htasks id0.
       * rewrite Hon. discriminate.
   - (* ---------------- Terminate *)
     cbn [step]. rewrite Hterm. cbn [s_tracing s_tasks s_wstart s_term s_pend s_db].
